@@ -55,6 +55,15 @@ claim("C18",
       "Audited table: literalQualAllowed in checker/c18.go.",
       "static analysis: enumeration and origin classification of jennifer emission chains (AST + types)")
 
+claim("C13",
+      "Obligation inventory over goverter's own code, each discharged mechanically or by an audited row whose sub-facts are re-verified on every run: explicit panic sites (switch exhaustiveness over closed universes "
+      "read from go/types, caller-established guards via an SSA struct-fact analysis, audited ArgUse arms), implicit partial operations (single-value type assertions, Object.Pkg() nil contract, strings.Repeat counts, "
+      "MustCompile arguments, constant indexes vs. length facts, nil-map stores), error discipline (no success return reachable while an error may be non-nil), recursion cycles of the VTA call graph (visited set when "
+      "named types are unfolded), unbounded loops and the monotonicity of the generator's Dirty fix-point. Decides that no input can drive own code into these panics/hangs; tests sample inputs, this covers all paths.",
+      "Not decided: termination in general, panics inside go/packages/jennifer/regexp, OOM, wording of diagnostics. Nil-dereference of conditionally initialised locals (D6 class) is not covered by a rule. "
+      "Trusted: audited tables in checker/c13*.go (switch exclusions, audited panics/asserts/lengths/error drops/loops), go/ssa.",
+      "static analysis: switch exhaustiveness vs. type-checked universes, SSA dominance/path search (error flow, struct facts, clamps), VTA call-graph SCCs")
+
 NOT_APPLICABLE_REASON = "rules for this property are designed (DESIGN.md §2) but the checker code is not built yet in this round; not claimed until it runs"
 
 def main():
